@@ -1,7 +1,7 @@
 SPECIFICATION SpecHist
 CONSTANTS
   AttrPrefixes = {"-", "@", "", "at_"}
-  KeyPrefixes = {"#", "_", "%"}
+  KeyPrefixes = {"#", "_", "$"}
   FieldSeps = {":", "|"}
   ArraySizes = {0, 33, 64}
   ActiveFns <- AllFns
